@@ -136,7 +136,8 @@ impl Grp for GA {
         k * p
     }
     fn lambda(s: &mut Src) -> (F, &'static str) {
-        match s.choose(5) {
+        match s.choose(6) {
+            5 => (rf::f_from_big(&crate::gen::mont_confusion(s, Md::Q)), "mont-const"),
             4 => {
                 // derived: choose a boundary value t for z^-2 (or z^-1 if t is a non-residue) and solve for lambda
                 let t = felt(s, Md::Q).v;
@@ -275,7 +276,16 @@ impl Grp for GB {
         k * p
     }
     fn lambda(s: &mut Src) -> (R2, &'static str) {
-        match s.choose(11) {
+        match s.choose(12) {
+            11 => {
+                // z = a + b*u with a, b in {0, R^-1, 2R^-1, -R^-1, R, R^2, R^-2}: stored limbs equal to small integers etc.
+                let c = rf::f_from_big(&crate::gen::mont_confusion(s, Md::Q));
+                match s.choose(3) {
+                    0 => (R2::new(c, F::zero()), "mont-const"),
+                    1 => (R2::new(F::zero(), c), "mont-const*u"),
+                    _ => (R2::new(c, rf::f_from_big(&crate::gen::mont_confusion(s, Md::Q))), "mont-const-both"),
+                }
+            }
             10 => {
                 // components related by a small root of unity of Fq: z = c + (zeta*c) u  (quadratic forms like c0^2 + c1^2
                 // or c0^2 + c0 c1 + c1^2 vanish on such lines)
